@@ -45,7 +45,26 @@ RelVal(rel, a, b) ==
     IN IF c = "unk" THEN VUndef
        ELSE VBool(IF rel = "lt" THEN c = "lt" ELSE c \in {"lt", "eq"})
 
-RECURSIVE Val(_, _), SumVals(_, _, _), ProdVals(_, _, _), ValSeq(_, _)
+\* three-valued logic on values: VBool or VUndef
+NotVal(v) == IF v.t = "bool" THEN VBool(~v.b) ELSE VUndef
+\* (equal residues do not prove equality: "true" only for exactly known values)
+EqVal(a, b) == LET c == Cmp3(a, b)
+               IN IF a.t \in {"bool", "undef"} \/ b.t \in {"bool", "undef"} THEN VUndef
+                  ELSE IF c = "ne" THEN VBool(FALSE)
+                  ELSE IF c = "eq" /\ (~IsNum(a) \/ (Exact(a) /\ Exact(b))) THEN VBool(TRUE)
+                  ELSE VUndef
+AndVals(vs) == IF \E i \in 1..Len(vs) : vs[i].t = "bool" /\ ~vs[i].b THEN VBool(FALSE)
+               ELSE IF \A i \in 1..Len(vs) : vs[i].t = "bool" THEN VBool(TRUE)
+               ELSE VUndef
+
+RECURSIVE Val(_, _), SumVals(_, _, _), ProdVals(_, _, _), ValSeq(_, _), PwVal(_, _, _)
+\* Piecewise: value of the first branch whose condition holds
+PwVal(branches, env, i) ==
+    IF i > Len(branches) THEN VUndef
+    ELSE LET c == Val(branches[i][2], env)
+         IN IF c.t # "bool" THEN VUndef
+            ELSE IF c.b THEN Val(branches[i][1], env)
+            ELSE PwVal(branches, env, i + 1)
 
 ValSeq(a, env) == [i \in 1..Len(a) |-> Val(a[i], env)]
 SumVals(a, env, i) == IF i > Len(a) THEN V0 ELSE VAdd(Val(a[i], env), SumVals(a, env, i + 1))
@@ -107,6 +126,14 @@ Val(t, env) ==
       [] k \in {"Le", "LessThan"} -> RelVal("le", A(1), A(2))
       [] k = "Gt" -> RelVal("lt", A(2), A(1))
       [] k = "Ge" -> RelVal("le", A(2), A(1))
+      [] k \in {"Eq", "Equality"} -> EqVal(A(1), A(2))
+      [] k \in {"Ne", "Unequality"} -> NotVal(EqVal(A(1), A(2)))
+      [] k \in {"not", "Not"} -> NotVal(A(1))
+      [] k \in {"and", "And"} -> AndVals(ValSeq(t.a, env))
+      [] k \in {"or", "Or"} -> NotVal(AndVals([i \in 1..Len(t.a) |-> NotVal(Val(t.a[i], env))]))
+      \* first branch whose condition is true; recipe <<e1, c1, e2, c2, ...>>, dump <<Pair(e1, c1), ...>>
+      [] k = "piecewise" -> PwVal([i \in 1..(Len(t.a) \div 2) |-> <<t.a[2 * i - 1], t.a[2 * i]>>], env, 1)
+      [] k = "Piecewise" -> PwVal([i \in 1..Len(t.a) |-> <<t.a[i].a[1], t.a[i].a[2]>>], env, 1)
       [] k \in {"max", "Max"} -> FunMax(ValSeq(t.a, env))
       [] k \in {"min", "Min"} -> FunMin(ValSeq(t.a, env))
       [] OTHER -> VUndef
